@@ -43,6 +43,29 @@ ledger_t &ledger()
   return l;
 }
 
+// ---- fault injection: the k-th allocation from now throws (`countdown`, 0 = off); every request above `maxsize` elements throws
+struct inject_t
+{
+  long long countdown = 0;
+  long long maxsize = -1;
+  int suspended = 0;
+};
+
+inject_t &inject()
+{
+  static inject_t i;
+  return i;
+}
+
+// allocations the harness makes for its own book-keeping are not part of the schedule
+struct no_inject
+{
+  no_inject() { ++inject().suspended; }
+  ~no_inject() { --inject().suspended; }
+  no_inject(no_inject const &) = delete;
+  no_inject &operator=(no_inject const &) = delete;
+};
+
 template <typename T>
 struct talloc
 {
@@ -54,6 +77,14 @@ struct talloc
   }
   T *allocate(std::size_t const n)
   {
+    inject_t &in = inject();
+    if (in.suspended == 0)
+    {
+      if (in.maxsize >= 0 && n > static_cast<std::size_t>(in.maxsize))
+        throw std::bad_alloc{};
+      if (in.countdown > 0 && --in.countdown == 0)
+        throw std::bad_alloc{};
+    }
     T *const p = std::allocator<T>{}.allocate(n);
     ledger().live[p] = n;
     return p;
@@ -176,8 +207,20 @@ void fresh()
   }
 }
 
+void null_buffer(std::size_t const i)
+{
+  no_inject const guard;
+  buf_t tmp{0U};
+  {
+    rv_t const drop{tmp.release()};
+  }
+  st().buf[i].reset();
+  st().buf[i].emplace(std::move(tmp));
+}
+
 void construct_nulls()
 {
+  no_inject const guard;
   for (std::size_t i = 0; i < NV; ++i)
     st().vec[i].emplace();
   // the model's initial buffers have null pointers: a released buffer
@@ -333,8 +376,13 @@ std::string handle_inner(std::vector<std::string> const &t)
     // `end`: all destructors run, the ledger is reported; `reset`: the same silently (start of the next history)
     fresh();
     std::string const r = "end live=" + std::to_string(ledger().live.size()) + " alloc=" + (ledger().bad ? "BAD" : "ok");
-    ledger().live.clear(); // whatever leaked stays leaked for LeakSanitizer, the count starts afresh
+    // a leak has been reported through the count; the blocks are given back so that the next history starts afresh
+    for (auto const &blk : ledger().live)
+      std::allocator<int>{}.deallocate(static_cast<int *>(blk.first), blk.second);
+    ledger().live.clear();
     ledger().bad = false;
+    if (op == "reset")
+      inject() = inject_t{};
     construct_nulls();
     return op == "end" ? r : "reset";
   }
@@ -885,18 +933,16 @@ std::string handle_inner(std::vector<std::string> const &t)
   else if (op == "breadopt" && t.size() == 4)
   {
     std::size_t const n = static_cast<std::size_t>(vh::to_ull(t[2]));
+    if (t[3] != "none" && ints(t[3]).size() > n)
+      return "invalid";
+    st().buf[b].reset(); // the register's old buffer is destroyed first, as for `bctor` / `bread`
     if (t[3] == "none")
     {
       auto res = fcppt::container::buffer::read_from_opt<buf_t>(
           n, [](int *, std::size_t) { return fcppt::optional::object<std::size_t>{}; });
       ret = res.has_value() ? 1 : 0;
       // nothing was read: the register holds a released buffer
-      buf_t tmp{0U};
-      {
-        rv_t const drop{tmp.release()};
-      }
-      st().buf[b].reset();
-      st().buf[b].emplace(std::move(tmp));
+      null_buffer(b);
       st().brd[b].clear();
       st().bws[b] = 0;
     }
@@ -915,7 +961,7 @@ std::string handle_inner(std::vector<std::string> const &t)
       if (res.has_value())
         st().buf[b].emplace(std::move(res.get_unsafe()));
       else
-        st().buf[b].emplace(0U);
+        null_buffer(b);
       st().brd[b] = xs;
       st().bws[b] = n - xs.size();
     }
@@ -962,25 +1008,139 @@ std::string handle_inner(std::vector<std::string> const &t)
   return fmt_ret(ret) + " " + show_buf(b) + mv + " " + tail(std_cmp({}, {b}, -1, -1));
 }
 
+struct snap_t
+{
+  int const *vdata[NV];
+  std::size_t vsize[NV], vcap[NV];
+  int const *bdata[NB];
+  std::size_t brs[NB], bws[NB];
+  std::size_t live;
+};
+
+snap_t snapshot()
+{
+  snap_t s{};
+  for (std::size_t i = 0; i < NV; ++i)
+  {
+    rv_t const &v = *st().vec[i];
+    s.vdata[i] = v.data();
+    s.vsize[i] = v.size();
+    s.vcap[i] = v.capacity();
+  }
+  for (std::size_t i = 0; i < NB; ++i)
+  {
+    buf_t &b = *st().buf[i];
+    s.bdata[i] = b.read_data();
+    s.brs[i] = b.read_size();
+    s.bws[i] = b.write_size();
+  }
+  s.live = ledger().live.size();
+  return s;
+}
+
+std::string dump_all()
+{
+  std::string r;
+  for (std::size_t i = 0; i < NV; ++i)
+    r += show_vec(i) + " ";
+  for (std::size_t i = 0; i < NB; ++i)
+    r += show_buf(i) + " ";
+  return r + "live=" + std::to_string(ledger().live.size()) + " alloc=" + (ledger().bad ? "BAD" : "ok");
+}
+
+// std::bad_alloc came out of the operation: every register must still be a valid object.  Registers whose object was under
+// construction hold nothing: they get a null object.  `sg`: every register the exception may not change (all but the object
+// under construction and the target of a single-pass range insert) has the pointers it had before; `std`: and the contents
+// std::vector has (for int every modifier of std::vector has no effects when the allocation fails).
+std::string after_throw(std::vector<std::string> const &t, snap_t const &before)
+{
+  no_inject const guard;
+  std::string const &op = t[0];
+  if (op == "readchars" || op == "dynarr")
+    return "exc:bad_alloc live=" + std::to_string(ledger().live.size() - before.live) + " alloc=" + (ledger().bad ? "BAD" : "ok");
+  bool vex[NV] = {}, bex[NB] = {};
+  for (std::size_t i = 0; i < NV; ++i)
+    if (!st().vec[i].has_value())
+    {
+      st().vec[i].emplace();
+      st().ref[i].clear();
+      vex[i] = true;
+    }
+  for (std::size_t i = 0; i < NB; ++i)
+    if (!st().buf[i].has_value())
+    {
+      null_buffer(i);
+      st().brd[i].clear();
+      st().bws[i] = 0;
+      bex[i] = true;
+    }
+  std::size_t r = 0;
+  if (op == "insr" && t.size() == 5 && t[3] == "inp" && reg(t[1], NV, r))
+  {
+    // basic guarantee only: the elements inserted so far stay
+    st().ref[r] = contents(*st().vec[r]);
+    vex[r] = true;
+  }
+  bool sg = true;
+  std::string diff;
+  for (std::size_t i = 0; i < NV; ++i)
+  {
+    rv_t const &v = *st().vec[i];
+    if (!vex[i] && !(v.data() == before.vdata[i] && v.size() == before.vsize[i] && v.capacity() == before.vcap[i]))
+      sg = false;
+    if (contents(v) != st().ref[i])
+      diff += ":v" + std::to_string(i) + "=" + show_list(st().ref[i]);
+  }
+  for (std::size_t i = 0; i < NB; ++i)
+  {
+    buf_t &b = *st().buf[i];
+    if (!bex[i] && !(b.read_data() == before.bdata[i] && b.read_size() == before.brs[i] && b.write_size() == before.bws[i]))
+      sg = false;
+    if (contents(b) != st().brd[i] || b.write_size() != st().bws[i])
+      diff += ":b" + std::to_string(i) + "=" + show_list(st().brd[i]) + "/" + std::to_string(st().bws[i]);
+  }
+  return "exc:bad_alloc " + dump_all() + " sg=" + (sg ? "1" : "0") + " std=" + (diff.empty() ? "ok" : "DIFF" + diff);
+}
+
 std::string handle(std::vector<std::string> const &t)
 {
   // a UBSan death (unlike an ASan one) does not run vh's death callback: make the lines produced so far visible
   // before every operation so that the runner attributes a death to the operation that caused it
   std::fflush(stdout);
+  if (t.size() == 2 && t[0] == "failat")
+  {
+    long long const k = vh::to_ll(t[1]);
+    if (k <= 0)
+      return "bad-op";
+    inject().countdown = k;
+    return "ok";
+  }
+  if (t.size() == 2 && t[0] == "failsize")
+  {
+    inject().countdown = 0;
+    inject().maxsize = t[1] == "off" ? -1 : vh::to_ll(t[1]);
+    return "ok";
+  }
+  snap_t const before = snapshot();
   try
   {
-    return handle_inner(t);
+    std::string const r = handle_inner(t);
+    inject().countdown = 0; // `failat` holds for one line
+    return r;
   }
   catch (std::bad_alloc const &)
   {
-    return "exc:bad_alloc";
+    inject().countdown = 0;
+    return after_throw(t, before);
   }
   catch (std::exception const &)
   {
+    inject().countdown = 0;
     return "exc:std";
   }
   catch (...)
   {
+    inject().countdown = 0;
     return "exc:other";
   }
 }
